@@ -1012,6 +1012,9 @@ class RZILTransformer(Transformer):
             )
         elif isinstance(items[0], list) or not items[1]:
             # This is a compound statement.
+            if isinstance(items[0], list) and isinstance(items[1], Effect):
+                # The last statement belongs to it as well.
+                return items[0] + [items[1]]
             return items[0]
         p: Pure = items[1]
         e: Effect = items[0]
